@@ -26,7 +26,13 @@ def history_ops(case, observe=("obs",)):
         kind = step[0]
         if kind == "add":
             if not supported_add(step[1]):
-                break
+                rt = step[1].split("\t")[0]
+                if "\n" in step[1] or (len(rt) == 1 and rt in MODEL_RT):
+                    break
+                # header, comment, custom record: no part of the model's state (the observation holds graph records
+                # only, and nothing can refer to such a line); the library takes it, the model is not told
+                H.apply_step(g, step)
+                continue
             mop = op("g.add", step[1])
         elif kind == "rm":
             mop = op("g.rm", step[1])
